@@ -820,7 +820,8 @@ pub fn gen(r: &mut Rng, i: usize) -> Vec<Vec<u128>> {
     if i % 12 == 5 {
         cases.push(gen_case(r, 1));
     }
-    // every 4th case additionally runs a program with item size limits (oracle only)
+    // every 4th case additionally runs a program with item size limits (watch_size.rs: mode 2 compared
+    // with Run/RunWatchSize.v, mode 3 oracle only)
     if i % 4 == 2 {
         cases.push(crate::watch_size::gen_case(r));
     }
